@@ -423,6 +423,18 @@ class LazyEvaluatedKernelTensor(LinearOperator):
             batch_indices = [slice(None, None, None)] * (self.dim() - 2)
             return self._getitem(row_index, col_index, *batch_indices)
         else:
+            # LinearOperator.__getitem__ replaces an int index i by slice(i, i + 1), which is empty for i = -1:
+            # normalize negative integer indices first (positions are known once an Ellipsis is expanded).
+            if any(isinstance(idx, int) and not isinstance(idx, bool) and idx < 0 for idx in index):
+                ndim = self.dim()
+                if Ellipsis in index and index.count(Ellipsis) == 1:
+                    pos = index.index(Ellipsis)
+                    index = index[:pos] + (slice(None, None, None),) * (ndim - len(index) + 1) + index[pos + 1 :]
+                if Ellipsis not in index and len(index) <= ndim:
+                    index = tuple(
+                        idx + self.shape[i] if isinstance(idx, int) and not isinstance(idx, bool) and idx < 0 else idx
+                        for i, idx in enumerate(index)
+                    )
             return super().__getitem__(index)
 
 
